@@ -9,6 +9,7 @@ import (
 	"fmt"
 	"os"
 	"path/filepath"
+	"runtime/debug"
 	"strings"
 	"time"
 
@@ -389,7 +390,7 @@ type bresult struct {
 func runB(c BCase) (res bresult) {
 	defer func() {
 		if p := recover(); p != nil {
-			res.panicked = fmt.Sprint(p)
+			res.panicked = fmt.Sprint(p) + " @ " + panicSite()
 		}
 	}()
 	lb := lightBlockOf(c.Header)
@@ -1017,6 +1018,10 @@ func genBCases(r *prng.R, tp *tuple) []BCase {
 		op2 := tp.params.Parameters
 		op2.MaxTxSize--
 		ps("oasis-max-tx-size-changed", &consensus.Parameters{Height: tp.params.Height, Parameters: op2, Meta: tp.params.Meta}, tp.stateParams, tp.header)
+		// protobuf sub-messages are optional on the wire: a provider can omit them
+		ps("meta-empty", &consensus.Parameters{Height: tp.params.Height, Parameters: tp.params.Parameters, Meta: []byte{}}, tp.stateParams, tp.header)
+		modp("meta-without-evidence-submessage", func(p *cmtproto.ConsensusParams) { p.Evidence = nil })
+		modp("meta-without-version-submessage", func(p *cmtproto.ConsensusParams) { p.Version = nil })
 		modp("block-max-bytes+1", func(p *cmtproto.ConsensusParams) { p.Block.MaxBytes++ })
 		modp("block-max-gas+1", func(p *cmtproto.ConsensusParams) { p.Block.MaxGas++ })
 		modp("block-max-bytes=0-invalid", func(p *cmtproto.ConsensusParams) { p.Block.MaxBytes = 0 })
@@ -1054,6 +1059,7 @@ func mainBind(seed uint64, rounds int, out, replay string) {
 	}
 	seen := map[string]bool{}
 	freeSeen := map[string]bool{}
+	paramsPanicSeen := false
 	for _, c := range cases {
 		res := runB(c)
 		key, _ := json.Marshal(c)
@@ -1068,6 +1074,25 @@ func mainBind(seed uint64, rounds int, out, replay string) {
 			sum.Sample(map[string]any{"kind": c.Kind, "alter": c.Alter, "verdict": res.verdict}, 2)
 		}
 		if res.panicked != "" {
+			sum.Count("verdict", c.Kind+"/PANIC")
+			if c.Kind == "params" && strings.Contains(res.panicked, "types/params.go") {
+				// shrink: the empty Meta is the smallest such response
+				small := c
+				p := *c.Params
+				p.Meta = []byte{}
+				small.Params = &p
+				small.Honest = nil
+				if r2 := runB(small); r2.panicked != "" && strings.Contains(r2.panicked, "types/params.go") {
+					c, res = small, r2
+				}
+				if !paramsPanicSeen {
+					paramsPanicSeen = true
+					sum.Findings = append(sum.Findings, coqout.Finding{Key: "C19:verifyParameters-panics-on-omitted-submessage",
+						What: "verifyParameters does not reject but PANICS (nil pointer dereference in cmttypes.ConsensusParamsFromProto, core.go:653) on a provider response whose params.Meta omits a protobuf sub-message: " + res.panicked,
+						Replay: map[string]any{"case": c}})
+				}
+				continue
+			}
 			sum.Violations = append(sum.Violations, map[string]any{"what": "implementation panicked: " + res.panicked, "case": c})
 			continue
 		}
@@ -1089,4 +1114,29 @@ func mainBind(seed uint64, rounds int, out, replay string) {
 	sum.Extra["unbound_fields_not_documented_in_code"] = fl
 	w.Close()
 	sum.Write(out)
+}
+
+// panicSite names the innermost frames of the panicking goroutine that belong
+// to oasis-core or cometbft (not to the runtime or this harness).
+func panicSite() string {
+	var out []string
+	for _, l := range strings.Split(string(debug.Stack()), "\n") {
+		l = strings.TrimSpace(l)
+		if (strings.Contains(l, "oasis-core/go/") || strings.Contains(l, "/cometbft")) && strings.Contains(l, ".go:") {
+			if i := strings.Index(l, " +0x"); i > 0 {
+				l = l[:i]
+			}
+			for _, pre := range []string{"/root/go/pkg/mod/", "/repo/"} {
+				l = strings.TrimPrefix(l, pre)
+			}
+			if j := strings.Index(l, "/go/consensus/"); j > 0 {
+				l = l[j+1:]
+			}
+			out = append(out, l)
+		}
+		if len(out) >= 3 {
+			break
+		}
+	}
+	return strings.Join(out, " <- ")
 }
